@@ -87,7 +87,13 @@ class DiagGen:
                     body.append(Core("print", [call]))
                 elif how < 0.6:
                     body.append(Asg("r", Bin("+", Int(1), call)))
-                elif how < 0.75:
+                elif how < 0.68:
+                    # the call happens inside an overloaded operator of an object
+                    on = "o%d" % self.marker()
+                    op = r.choice(["+", "-", "*"])
+                    body.append(Asg(on, Map(["d"], [Int(1)], ["@" + op], [Fn([Param("other")], Block([call]))])))
+                    body.append(Asg("r", Bin(op, Id(on), Int(self.marker()))))
+                elif how < 0.78:
                     # the call happens inside a function run by a core-library function
                     body.append(Asg("r", MCall(Tuple([Int(1), Int(self.marker())]), "fold", [Int(0), Fn([Param("acc"), Param("x")], Block([Bin("+", Id("acc"), call)]))])))
                 elif how < 0.9:
